@@ -459,9 +459,16 @@ def run_check(prop, tier, seed):
     violations = []      # (description, replay lines)
     known_lines = []
     kf = [k for k in known_findings() if k['prop'] == prop]
+    # a listed finding covers a failing case only if the (faithful) model predicts exactly what the
+    # implementation did on that case: any other deviation on it is still a violation
+    mism_lines = set(m['case_line'] for m in res['mismatches'] if m)
+    n_known_cases = 0
     for v in res['monitor_failures']:
-        hit = [k for k in kf if k['match'] in v['case_line'] or k['match'] == v.get('key')]
+        hit = [k for k in kf if k['match'] in v['case_line'] or k['match'] == v.get('key') or v['what'].startswith(k['match'] + ':')]
+        if hit and v['case_line'] in mism_lines:
+            hit = []
         if hit:
+            n_known_cases += 1
             known_lines.append('KNOWN-FINDING: property=%s %s' % (prop, hit[0]['text']))
         else:
             violations.append(v)
@@ -510,7 +517,8 @@ def run_check(prop, tier, seed):
         evaluations=res['evaluations'], distinct_nontrivial=res['distinct_nontrivial'], rule=res['rule'],
         samples=res['samples'][:6], traces_validated_against_impl=res['compared_cases'],
         observations_compared=res['compared_obs'], correspondence_mismatches=len(res['mismatches']),
-        monitor_failures=len(res['monitor_failures']), known_findings_hit=len(known_lines),
+        monitor_failures=len(res['monitor_failures']) - n_known_cases, known_findings_hit=len(known_lines),
+        cases_covered_by_known_findings=n_known_cases,
         families=res.get('families', {}), exhaustive=res.get('exhaustive', False),
         exhaustive_scope=res.get('exhaustive_scope', ''), bundle_wall_s=res.get('bundle_wall_s'),
         explanation=spec.get('explanation', ''),
@@ -526,9 +534,10 @@ def run_check(prop, tier, seed):
         print(k)
     for ln in out_lines:
         print(ln)
-    print('%s %s: proof %s (%d/%d obligations), %d cases / %d observations compared, %d mismatches, %d monitor failures, %.1fs'
+    print('%s %s: proof %s (%d/%d obligations), %d cases / %d observations compared, %d mismatches, %d monitor failures%s, %.1fs'
           % (prop, tier, 'ok' if audit['ok'] else 'BROKEN', audit['discharged'], audit['obligations'],
-             res['compared_cases'], res['compared_obs'], len(res['mismatches']), len(res['monitor_failures']), wall))
+             res['compared_cases'], res['compared_obs'], len(res['mismatches']), len(res['monitor_failures']) - n_known_cases,
+             (' (+ %d cases of the listed known finding)' % n_known_cases) if n_known_cases else '', wall))
     return exit_code
 
 
